@@ -212,6 +212,13 @@ func VerifySignature(ucan View, verifier Verifier) (bool, error) {
 		Fct: ucan.Model().Fct,
 	}
 
+	if nnc := ucan.Nonce(); nnc != "" {
+		payload.Nnc = &nnc
+	}
+	if nbf := ucan.NotBefore(); nbf != 0 {
+		payload.Nbf = &nbf
+	}
+
 	msg, err := encodeSignaturePayload(payload, ucan.Version(), alg)
 	if err != nil {
 		return false, err
